@@ -40,6 +40,7 @@ type PipeConn struct {
 	Stream   bool   // true: a Read may return bytes of several writes (TCP); false: one write per Read (datagram-like)
 	NoEOF    bool   // datagram sockets: the peer going away is not observable (no EOF)
 	PostRead bool   // a scheduling point lies between the return of a Read and the caller's next step
+	Window   int    // > 0: a Write blocks while that many bytes written by this end are still unread by the peer (a peer that stopped reading, buffers full)
 	timedOut bool
 	timer    *vsched.Timer
 	Written  []byte // every byte this end wrote
@@ -130,7 +131,11 @@ func copyBytes(dst, src []byte) int { return copy(dst, src) }
 //
 //go:norace
 func (c *PipeConn) Write(p []byte) (int, error) {
-	vsched.Point("write "+c.Name, always)
+	if c.Window > 0 {
+		vsched.Point("write "+c.Name, c.writable)
+	} else {
+		vsched.Point("write "+c.Name, always)
+	}
 	if c.closed {
 		return 0, net.ErrClosed
 	}
@@ -155,6 +160,20 @@ func (c *PipeConn) Write(p []byte) (int, error) {
 }
 
 func always() bool { return true }
+
+// writable: there is room in the send window, or the write would fail / the execution is over.
+//
+//go:norace
+func (c *PipeConn) writable() bool {
+	if c.closed || c.wr.rclosed || !vsched.Active() {
+		return true
+	}
+	n := 0
+	for _, s := range c.wr.segs {
+		n += len(s)
+	}
+	return n < c.Window
+}
 
 // Close implements net.Conn.
 //
